@@ -198,8 +198,27 @@ Definition m_step (card : var -> nat) (cols : list var) (rows : list (list nat))
            (cpds : list cpd) (clamp : Qc) (child : var) (gparents : list var) : table (option Qc) :=
   mle_cpd card (cols ++ lats) (e_step card cols rows lats cpds clamp) child gparents.
 
-(* ---------------------------------------------------------------- input guards (pgmpy raises otherwise) *)
+(* ---------------------------------------------------------------- which nodes are estimated *)
+(* get_parameters loops over self.model.nodes().  BayesianEstimator.__init__ and DAG.fit (on a plain DAG)
+   rebuild the network as BayesianNetwork(model.edges()) -- only the nodes that occur in an edge -- and then
+   (fix: commits cccea0b, aa23a9c) add_nodes_from(model.nodes()) re-adds every node of the original model.
+   The result is a node SET (networkx adjacency dict): edge endpoints first, then the remaining nodes.
+   [rebuilt] = the estimator is BayesianEstimator or the entry point is DAG.fit of a plain DAG. *)
 Definition memv (v : var) (l : list var) : bool := existsb (Nat.eqb v) l.
+Fixpoint add_nodes (acc : list var) (vs : list var) : list var :=
+  match vs with
+  | [] => acc
+  | v :: r => add_nodes (if memv v acc then acc else acc ++ [v]) r
+  end.
+Definition edge_nodes (edges : list (var * var)) : list var :=
+  add_nodes [] (flat_map (fun e => [fst e; snd e]) edges).
+Definition estimated_nodes (rebuilt : bool) (nodes : list var) (edges : list (var * var)) : list var :=
+  if rebuilt then add_nodes (edge_nodes edges) nodes else nodes.
+(* the pre-cccea0b / pre-aa23a9c behaviour (isolated nodes dropped), kept for C06_every_node_prefix_refuted *)
+Definition estimated_nodes_prefix (nodes : list var) (edges : list (var * var)) : list var :=
+  filter (fun v => memv v (edge_nodes edges)) nodes.
+
+(* ---------------------------------------------------------------- input guards (pgmpy raises otherwise) *)
 (* every node of the family is a data column *)
 Definition fam_in_cols (cols : list var) (fam : list var) : bool := forallb (fun v => memv v cols) fam.
 (* every cell is a declared state ("Data contains unexpected states" otherwise) and rows are positional *)
